@@ -33,14 +33,23 @@ def check(ctx):
 
 def sizing_inputs(ctx):
     for cname in ('DollarWeightedCashBufferedOrderSizer', 'LongShortLeveragedOrderSizer'):
-        qn = cname + '._obtain_broker_portfolio_total_equity'
-        ps = summarise(ctx, qn, policy=no_inline)
-        exp = ('call', ('fn', 'SimulatedBroker.get_portfolio_total_equity'), (A('self', 'broker'), A('self', 'broker_portfolio_id')), ())
-        ok = len(ps) == 1 and ps[0].outcome == 'return' and ps[0].value == exp
+        # anchored on the sizer's public entry: every sizing path asks the broker for the total equity of the session portfolio, and for nothing else
+        qn = cname + '.__call__'
+        from ..symex import default_policy as _dp
+        ps = summarise(ctx, qn, policy=_dp)
+        sized = [p for p in ps if p.outcome == 'return' and any(e.kind == 'loop' for e in p.events)]
+        ok = bool(sized)
+        seen = []
+        for p in sized:
+            eq = [e for e in p.flat_events() if e.kind == 'call' and any(c.startswith('SimulatedBroker.get_') for c in e.callee)]
+            seen = [(e.callee, {k: fmt(v) for k, v in e.args.items()}) for e in eq]
+            ok = ok and len(eq) >= 1 and all(e.callee == ['SimulatedBroker.get_portfolio_total_equity'] and e.args.get('portfolio_id') == A('self', 'broker_portfolio_id')
+                                             and e.d.get('recv') == A('self', 'broker') for e in eq)
         ctx.require(ok, 'C08.sizing', '%s sizes from the total equity of the session portfolio (not its cash)' % cname, ctx.fn(qn).site(),
-                    [fmt(p.value)[:120] if p.value else p.outcome for p in ps], key='C08.sizing|equity|%s' % cname)
+                    str(seen)[:200], key='C08.sizing|equity|%s' % cname)
     qn = 'SimulatedBroker.get_portfolio_total_equity'
-    ps = summarise(ctx, qn, policy=no_inline)
+    _f = ctx.fn(qn)
+    ps = summarise(ctx, qn, policy=lambda a, b, d: d <= 4 and b.path == _f.path and b.name.startswith('_') and not b.name.startswith('__') and not b.is_property)
     for p in normal(ps):
         v = p.value
         ok = v in (('attr', ('sub', A('self', 'portfolios'), V('portfolio_id')), 'total_equity'),) or \
